@@ -132,6 +132,18 @@ def run_case(c, d):
         out['overlapping_dump'] = {'written': True, 'equal': canon(st4.timings) == canon(at_that_moment.timings) and st4.unit == at_that_moment.unit}
     else:
         out['overlapping_dump'] = {'written': False, 'equal': False}
+    # ---- the same file written again and again by one process (checkpoints), read back in between: always what was just written
+    again = os.path.join(d, 'again.lprof')
+    stale = []
+    for rnd in range(5):
+        with contextlib.redirect_stdout(io.StringIO()):
+            ns['hot'](2)
+        prof.dump_stats(again)
+        now_ = prof.get_stats()
+        back = line_profiler.load_stats(again)
+        if canon(back.timings) != canon(now_.timings) or back.unit != now_.unit:
+            stale.append(rnd)
+    out['rewritten_file_read_back'] = {'rounds': 5, 'stale_rounds': stale}
     out['live'] = {'unit': live.unit, 'timings': canon(live.timings)}
     out['live_reloaded'] = {'unit': st2.unit, 'timings': canon(st2.timings)}
     out['live_print_stats'] = b1.getvalue()
